@@ -493,6 +493,13 @@ def gen_xf(rng, c):
             rc["tgt"] = [[x, y, -z] for x, y, z in rc["src"]]
     elif c == "Homogeneous":
         rc["h"] = [[dy(rng, 12, 2) for _ in range(d + 1)] for _ in range(d + 1)]
+        if rng.random() < 0.35:
+            # a NON-SQUARE plain Homogeneous (the class supports them: n_dims = columns - 1, n_dims_output = rows - 1),
+            # e.g. a 3x4 projection matrix
+            nr, nc = rng.choice([(2, 3), (3, 4), (4, 3), (3, 2)])
+            rc["d"] = nc - 1
+            rc["h"] = [[dy(rng, 12, 2) for _ in range(nc)] for _ in range(nr)]
+            rc["nonsquare"] = True
     elif c == "Affine":
         rc["h"] = [[dy(rng, 12, 2) for _ in range(d + 1)] for _ in range(d)] + [[0.0] * d + [1.0]]
     elif c == "Similarity":
@@ -832,7 +839,13 @@ def wellformed_problems(r, orig):
         query("n_parameters", lambda o: o.n_parameters)
     else:
         h = r.h_matrix
-        if not (isinstance(h, np.ndarray) and h.ndim == 2 and h.shape[0] == h.shape[1] and h.shape[0] >= 2):
+        if c == "Homogeneous":
+            # any rectangular (n_dims_output + 1) x (n_dims + 1) matrix; the object must keep its dimensions
+            if not (isinstance(h, np.ndarray) and h.ndim == 2 and min(h.shape) >= 2):
+                return ["h_matrix is %s" % ("None" if h is None else "not a 2-d array of at least 2 x 2")]
+            if h.shape != orig.h_matrix.shape:
+                probs.append("h_matrix of shape %r on a transform of shape %r" % (h.shape, orig.h_matrix.shape))
+        elif not (isinstance(h, np.ndarray) and h.ndim == 2 and h.shape[0] == h.shape[1] and h.shape[0] >= 2):
             return ["h_matrix is %s" % ("None" if h is None else "not a square array")]
         if not np.all(np.isfinite(h)):
             probs.append("h_matrix not finite")
@@ -843,7 +856,7 @@ def wellformed_problems(r, orig):
             if not (np.all(h[-1, :-1] == 0) and h[-1, -1] == 1):
                 probs.append("bottom row is not [0 .. 0 1]")
         L, t = h[:-1, :-1], h[:-1, -1]
-        off = L - np.diag(np.diag(L))
+        off = L - np.diag(np.diag(L)) if c != "Homogeneous" else None
         if c in ("Translation", "AlignmentTranslation") and not np.array_equal(L, np.eye(d)):
             probs.append("translation with a non-identity linear part")
         if c in ("UniformScale", "AlignmentUniformScale"):
@@ -1393,6 +1406,8 @@ def explore_object(ctx, rng, rc, lines, recs, n_wrong, with_model=True):
         ctx.case((c, "life-raises", json.dumps(rc, sort_keys=True)), nontrivial=True)
         return
     ctx.count("class:" + c)
+    if rc.get("nonsquare"):
+        ctx.count("homogeneous:non-square")
     if c in IMAGES:
         ctx.count("dtype:" + rc["dtype"])
         if "maskkind" in rc:
